@@ -57,7 +57,8 @@ META = dict(
     "of {insert, delete, re-parent} on related objects, so that an order between statements is forced",
     assumptions=["SQLite", "non-deferrable FKs checked per statement", "distinct primary keys inside one batch"],
     bounds=dict(
-        quick="U1 (2 parents, 2 children; nullable + NOT NULL FK), U3 with 3 nodes (all pairs) and 4 nodes (start graphs <= 2 rows), U2 2x2, U4, U8 (start graphs <= 2 rows); 2 routes",
+        quick="U1 (2 parents, 2 children; nullable + NOT NULL FK; bidirectional, collection-only and many-to-one-only under both class-name orders), U3 with 3 nodes "
+        "(all pairs; bidirectional and each single direction) and 4 nodes (start graphs <= 2 rows), U2 2x2, U4, U8 (start graphs <= 2 rows); 2 routes",
         thorough="same worlds, U3 with 4 nodes all pairs, U8 all pairs, cascade 'all' variants; 4 routes",
     ),
 )
